@@ -80,6 +80,20 @@ func DrawHistory(ch Chooser) []HistItem {
 			it.Text = gen.JunkProgram(ch.Intn)
 		case "unparseable":
 			it.Text = gen.MutateBytes(ch.Intn, gen.Generate(ch.Intn, gen.Options{}).Text(), 3)
+			if ch.Intn(2) == 1 {
+				// the parser gives up early (a definite error, or a character that is no token at all)
+				// with several kilobytes of perfectly good declarations still unread behind it
+				stop := []string{"prc[ = \n", "#\n", "@ !\n", ") )\n"}[ch.Intn(4)]
+				tail := gen.Generate(ch.Intn, gen.Options{Scale: 1}).Text()
+				for len(tail) < 9000 {
+					tail += "// padding so that the rest of the file is longer than any read buffer\n" + tail
+				}
+				head := "prc[first] : 1 = print p; close self\n"
+				if ch.Intn(2) == 1 {
+					head = ""
+				}
+				it.Text = head + stop + tail
+			}
 		case "type-family":
 			it.Text = family[i]
 		case "type-stress":
@@ -108,6 +122,9 @@ func DrawHistory(ch Chooser) []HistItem {
 			it.Cfg.ViaFile = it.Cfg.ViaFile || ch.Intn(3) == 1
 		} else {
 			it.Cfg.ViaFile = ch.Intn(4) == 1
+		}
+		if len(items) > 0 && items[len(items)-1].Cfg.ViaFile && ch.Intn(2) == 1 {
+			it.Cfg.ViaFile = true // files tend to come in runs
 		}
 		items = append(items, it)
 	}
